@@ -277,3 +277,40 @@ Proof.
   destruct (N.eqb_spec x c) as [->|Hne]; [discriminate|].
   destruct (split1 c s) as [[a b]|]; [discriminate|]. intros _ [X|X]; [congruence | exact (IH eq_refl X)].
 Qed.
+
+(* ---------- last character ---------- *)
+Definition last_ok (p : N -> bool) (s : str) : Prop := match rev s with [] => True | l :: _ => p l = false end.
+
+Lemma last_ok_app p a b : b <> [] -> last_ok p b -> last_ok p (a ++ b).
+Proof.
+  unfold last_ok. intros Hb H. rewrite rev_app_distr. destruct (rev b) eqn:E.
+  - apply (f_equal (@rev N)) in E. rewrite rev_involutive in E. cbn in E. congruence.
+  - cbn. exact H.
+Qed.
+
+Lemma last_ok_tail p c b : b <> [] -> last_ok p (c :: b) -> last_ok p b.
+Proof.
+  unfold last_ok. intros Hb. cbn [rev]. destruct (rev b) eqn:E.
+  - apply (f_equal (@rev N)) in E. rewrite rev_involutive in E. cbn in E. congruence.
+  - cbn. tauto.
+Qed.
+
+Lemma last_ok_Forall p s : Forall (fun c => p c = false) s -> last_ok p s.
+Proof.
+  unfold last_ok. intros H. apply Forall_rev_iff in H. destruct (rev s); [exact I|]. inversion H; assumption.
+Qed.
+
+Lemma Forall2_rev {A B} (R : A -> B -> Prop) a b : Forall2 R a b -> Forall2 R (rev a) (rev b).
+Proof.
+  induction 1 as [|x y a b Hxy _ IH]; [constructor|]. cbn [rev]. apply Forall2_app; [exact IH|].
+  constructor; [exact Hxy | constructor].
+Qed.
+
+Lemma hd32_app_ne z x : z <> [] -> hd32 (z ++ x) = hd32 z.
+Proof. destruct z; [congruence | reflexivity]. Qed.
+
+Lemma squeeze_head_eq s : match s with [] => squeeze s = [] | h :: _ => exists r, squeeze s = h :: r end.
+Proof.
+  pose proof (squeeze_first s) as F. destruct s as [|h t]; [reflexivity|].
+  destruct (squeeze (h :: t)) as [|h' t']; [contradiction|]. subst h'. exists t'. reflexivity.
+Qed.
